@@ -279,3 +279,17 @@ CHECKS["C05"] = {
         {"pkg": "mboxprop", "run": "TestC05EndToEnd", "checks": (1200, 15000), "shards": (1, 16), "timeout": (900, 5400), "gomaxprocs": [16, 4, 2, 8]},
     ],
 }
+
+CHECKS["C11"] = {
+    "level": "exploration",
+    "rule": ("model-based generated session histories over mailbox.Server (accept loop as a grpc server runs it) and mailbox.Client (Dial) on the in-memory relay, in REAL time (the mailbox conns sleep in their re-connect back-off under the mutex Close needs, "
+             "which a synctest bubble cannot schedule), 40 sessions concurrently per batch: actions connect (with drawn Dial offset; optionally Dial issued while the previous connection is still open), transfer (echo of 1..40000 bytes), close_client, close_server, wait, "
+             "intruder (a second client that only knows the passphrase), server max handshake version 0/1/2. Invariants: Accept / Dial never return while the connection previously handed out by the same object has an open Done(); "
+             "after a close a working secured connection (echo succeeds) is re-established within 12 dial attempts; after a version-2 pairing both ConnData agree on a new SID different from the passphrase SID, hold each other's true key, "
+             "the next connection uses the KK pattern on the key-derived stream ids; a version 0/1 pairing stores no key; the passphrase-only client never completes a handshake nor obtains the auth payload after the switch; "
+             "the peer of a closed side notices within 30s. Non-trivial: the history contains at least one reconnect; distinct by history."),
+    "assumptions": ["relative to the in-memory relay model", "real-time bounds of 30-150 s per wait, >= 10x the mailbox's own constants (2s retry, 2s handshake, 5/7/3s keepalive)"],
+    "units": [
+        {"pkg": "mboxprop", "run": "TestC11Session", "checks": (1, 6), "shards": (1, 4), "timeout": (1500, 7200), "shrink": (1, 1)},
+    ],
+}
